@@ -142,7 +142,7 @@ class _Call(object):
     PROP = PROP
     ID = 'c13.call'
     WALL_S = 8
-    TIERS = {'quick': 6 * 152, 'thorough': 600 * 152}
+    TIERS = {'quick': 18 * 152, 'thorough': 600 * 152}
 
     def generate_r(self, sub, r):
         rnd = random.Random(sub)
@@ -178,7 +178,7 @@ class _Call(object):
 class _Abort(object):
     PROP = PROP
     ID = 'c13.abort'
-    TIERS = {'quick': 20 * len(SEEDED), 'thorough': 4000 * len(SEEDED)}
+    TIERS = {'quick': 40 * len(SEEDED), 'thorough': 4000 * len(SEEDED)}
 
     def generate_r(self, sub, r):
         rnd = random.Random(sub)
